@@ -30,20 +30,20 @@ ASSUMPTIONS = ["Distribution.draw_mw stubbed (same targets handed to both runs)"
 OUTSIDE = ["histories longer than 1 (quick) / 2 (thorough) operations between the two generations (each history also contains run A itself)", "System.generator (cannot be handed a generator)", "force-field typing inside histories (covered by C20)"]
 REQUIRED_LABELS = ["same molecule after any history", "same options and probabilities at every decision after any history", "parsed object unchanged by the operation", "global generator untouched"]
 
-SK = ["homo-prefix-suffix", "left-terminal-list", "endgroup-initiated", "chain-stopper-unit", "list-to-endgroup-mixed", "dead-end-endgroup", "block-with-connector", "random-copolymer-weighted", "star-three-descriptors"]
+SK = ["homo-prefix-suffix", "left-terminal-list", "endgroup-initiated", "chain-stopper-unit", "list-to-endgroup-mixed", "dead-end-endgroup", "left-terminal-list-with-endgroup-entry", "block-with-connector", "random-copolymer-weighted", "star-three-descriptors"]
 SECOND = [0, 3, 4, 5, 9, 11]  # generate, reaction-graph, atom-graph, mirror, parse-again, generate-same-stream
 OPS = ["generate", "str", "print-without-extensions", "reaction-graph", "atom-graph", "mirror", "elements", "residues", "generable", "parse-again", "global-rng-draw",
        "generate-same-stream", "mirror-generate"]
 
 
 def bounds(tier):
-    return {"skeletons": SK if tier == "thorough" else SK[:7], "history length": "1 (quick); thorough: 1 at N=2 and 2 at N=1 with the second operation from {generate, reaction-graph, atom-graph, mirror, parse-again}",
+    return {"skeletons": SK if tier == "thorough" else SK[:8], "history length": "1 (quick); thorough: 1 at N=2 and 2 at N=1 with the second operation from {generate, reaction-graph, atom-graph, mirror, parse-again}",
             "operations": OPS, "units per block": 1 if tier == "quick" else 2}
 
 
 def cases(tier):
     out = []
-    sk = [s for s in gendrive.SKELETONS if s["name"] in (SK if tier == "thorough" else SK[:7])]
+    sk = [s for s in gendrive.SKELETONS if s["name"] in (SK if tier == "thorough" else SK[:8])]
     for s in sk:
         for first in range(len(OPS)):
             if tier == "quick" and s["name"] == "list-to-endgroup-mixed" and first not in (0, 3, 11):
